@@ -3,6 +3,7 @@ package main
 import (
 	"fmt"
 	"go/token"
+	"go/types"
 	"strings"
 
 	"golang.org/x/tools/go/ssa"
@@ -59,6 +60,7 @@ func runC01(c *Ctx) {
 	}
 	c.floor("C01.a gather sites", sites, 3)
 	depthTracksLevel(c, "C01.e depth-is-level", f, "(*mqtt.TopicsIndex).scanSubscribers", 1)
+	trimKeepsSubscriptions(c, "C01.f trim-keeps-subscribed-nodes", 3, 4, 5)
 	// no collector call outside a gather site
 	for _, n := range []string{fnGatherShared, fnGatherInline} {
 		for _, x := range c.callsNamed(f, n) {
@@ -180,6 +182,24 @@ func depthTracksLevel(c *Ctx, rule string, f *ssa.Function, self string, floor i
 	c.floor(rule+" recursive calls", n, floor)
 }
 
+// trimKeepsSubscriptions: a node that still holds a subscription of one of the given kinds (trimTerms indices
+// 3 client, 4 shared, 5 inline) is never unlinked by trim: an unlinked node's subscribers silently stop matching.
+func trimKeepsSubscriptions(c *Ctx, rule string, kinds ...int) {
+	g := c.fn("mqtt", "(*TopicsIndex).trim")
+	if g == nil {
+		return
+	}
+	d := c.call1(g, "(*mqtt.particles).delete")
+	if d == nil {
+		c.ob(rule, "(*mqtt.TopicsIndex).trim unlinks through particles.delete", c.pos(g.Pos()), false, "site not found")
+		return
+	}
+	for _, k := range kinds {
+		c.ob(rule, "(*mqtt.TopicsIndex).trim: every node unlinked on the upward walk was itself tested: "+trimTerms[k].what, c.pos(d.Pos()), trimTerms[k].holds(d),
+			"a node that still holds subscriptions would be cut out of the trie: its subscribers were acknowledged but never match again")
+	}
+}
+
 // trimKeepsRetained: a node that still carries a retained message is never unlinked by trim (wildcard scans walk
 // the trie, so an unlinked node's message is invisible to them while exact filters still find it in the store).
 func trimKeepsRetained(c *Ctx, rule string) {
@@ -188,12 +208,38 @@ func trimKeepsRetained(c *Ctx, rule string) {
 		return
 	}
 	if d := c.call1(g, "(*mqtt.particles).delete"); d != nil {
-		m := textHas(`.retainPath == ""`)
 		c.ob(rule, "(*mqtt.TopicsIndex).trim: every node unlinked on the upward walk was itself tested to hold no retained message", c.pos(d.Pos()),
-			dominatedByFact(d, m, true) && reguarded(d, m, true), "an ancestor with a retained message would vanish from the trie while its packet stays in the store: exact filters find it, wildcard filters do not")
+			trimTerms[1].holds(d), "an ancestor with a retained message would vanish from the trie while its packet stays in the store: exact filters find it, wildcard filters do not")
 	} else {
 		c.ob(rule, "(*mqtt.TopicsIndex).trim unlinks through particles.delete", c.pos(g.Pos()), false, "site not found")
 	}
+}
+
+// trimTerms: the conditions under which trim may unlink a node; each must be established on the path to the
+// removal (directly or inside a boolean helper) and re-established for every ancestor the walk climbs to.
+// A size test is accepted as `== 0` on its true edge or `> 0` on its false edge (sums of sizes included).
+type trimTerm struct {
+	what  string
+	holds func(ins ssa.Instruction) bool
+}
+
+func guardedEachRound(ins ssa.Instruction, m func(string) bool, truth bool) bool {
+	return dominatedByFact(ins, m, truth) && reguarded(ins, m, truth)
+}
+
+func sizeZero(call string) func(ins ssa.Instruction) bool {
+	return func(ins ssa.Instruction) bool {
+		return guardedEachRound(ins, textHas(call, "== 0"), true) || guardedEachRound(ins, textHas(call, "> 0"), false)
+	}
+}
+
+var trimTerms = []trimTerm{
+	{"has a parent", func(ins ssa.Instruction) bool { return guardedEachRound(ins, textHas(".parent == nil"), false) }},
+	{"holds no retained message", func(ins ssa.Instruction) bool { return guardedEachRound(ins, textHas(`.retainPath == ""`), true) }},
+	{"has no children", sizeZero("(*mqtt.particles).len(")},
+	{"has no client subscriptions", sizeZero("(*mqtt.Subscriptions).Len(")},
+	{"has no shared subscriptions", sizeZero("(*mqtt.SharedSubscriptions).Len(")},
+	{"has no inline subscriptions", sizeZero("(*mqtt.InlineSubscriptions).Len(")},
 }
 
 // ---- C02 -----------------------------------------------------------------------------------
@@ -425,7 +471,121 @@ func init() {
 	})
 }
 
+// sharedCandidatesOwner: the per-group candidate sets gathered for a publish (Subscribers.Shared) are filled by the
+// trie walk only; no other broker code removes or adds members before the selection (hooks may, that is their contract).
+func sharedCandidatesOwner(c *Ctx, rule string) {
+	n := 0
+	for _, fn := range c.ModFns {
+		if fnPkgPath(fn) != modPath {
+			continue
+		}
+		for _, ins := range instrs(fn) {
+			var m ssa.Value
+			kind := ""
+			switch x := ins.(type) {
+			case *ssa.MapUpdate:
+				m, kind = x.Map, "insert into"
+			case ssa.CallInstruction:
+				if cname(x.Common()) == "builtin.delete" {
+					m, kind = x.Common().Args[0], "delete from"
+				}
+			}
+			if m == nil {
+				continue
+			}
+			fromShared := false
+			var walk func(v ssa.Value, seen map[ssa.Value]bool)
+			walk = func(v ssa.Value, seen map[ssa.Value]bool) {
+				if seen[v] || fromShared {
+					return
+				}
+				seen[v] = true
+				if fa, ok := v.(*ssa.FieldAddr); ok && fieldName(fa.X.Type(), fa.Field) == "Shared" && strings.HasSuffix(fa.X.Type().String(), ".Subscribers") {
+					fromShared = true
+					return
+				}
+				if i2, ok := v.(ssa.Instruction); ok {
+					for _, op := range i2.Operands(nil) {
+						if *op != nil {
+							walk(*op, seen)
+						}
+					}
+				}
+			}
+			walk(m, map[ssa.Value]bool{})
+			if !fromShared {
+				continue
+			}
+			n++
+			owner := fname(rootFn(fn))
+			c.ob(rule, fmt.Sprintf("%s: %s the gathered share-group candidates (Subscribers.Shared) — only the trie walk fills them", fname(fn), kind), c.pos(ins.Pos()),
+				owner == "(*mqtt.TopicsIndex).gatherSharedSubscriptions", "removing candidates before the selection can leave a group with nobody selected: the message is lost for the whole group")
+		}
+	}
+	c.floor(rule+" writes to Subscribers.Shared", n, 1)
+}
+
+// shadowCounters: a container that keeps a map `internal` may cache a size in another field, but every ±k update of
+// such a field must be conditional on a lookup in the map (insert of a new key / delete of a present key);
+// an unconditional update diverges from the map on a repeated insert or a delete of an absent key.
+func shadowCounters(c *Ctx, rule string, only string) {
+	for _, fn := range c.ModFns {
+		if fnPkgPath(fn) != modPath {
+			continue
+		}
+		for _, ins := range instrs(fn) {
+			st, ok := ins.(*ssa.Store)
+			if !ok {
+				continue
+			}
+			fa, ok := st.Addr.(*ssa.FieldAddr)
+			if !ok {
+				continue
+			}
+			pt, ok := fa.X.Type().Underlying().(*types.Pointer)
+			if !ok {
+				continue
+			}
+			stt, ok := pt.Elem().Underlying().(*types.Struct)
+			if !ok {
+				continue
+			}
+			hasInternal := false
+			for i := 0; i < stt.NumFields(); i++ {
+				if _, isMap := stt.Field(i).Type().Underlying().(*types.Map); isMap && stt.Field(i).Name() == "internal" {
+					hasInternal = true
+				}
+			}
+			name := fieldName(fa.X.Type(), fa.Field)
+			if !hasInternal || name == "internal" {
+				continue
+			}
+			if only != "" && !strings.HasSuffix(pt.Elem().String(), "."+only) {
+				continue
+			}
+			bo, ok := st.Val.(*ssa.BinOp)
+			if !ok || (bo.Op != token.ADD && bo.Op != token.SUB) {
+				continue
+			}
+			if describe(bo.X) != describe(fa) {
+				continue
+			}
+			guarded := false
+			for _, ed := range edgeDoms(st) {
+				if t, _, ok := condOf(ed.b); ok && strings.Contains(t, ".internal") {
+					guarded = true
+				}
+			}
+			c.ob(rule, fmt.Sprintf("%s: the cached counter %s.%s is updated only under a test of the map entry concerned", fname(fn), shorten(pt.Elem().String()), name), c.pos(st.Pos()), guarded,
+				"the counter is changed unconditionally: deleting an absent key (or re-adding a present one) makes it disagree with the map, and trim trusts it")
+		}
+	}
+}
+
 func runC06(c *Ctx) {
+	trimKeepsSubscriptions(c, "C06.e trim-keeps-shared-nodes", 4)
+	sharedCandidatesOwner(c, "C06.c candidates-owner")
+	shadowCounters(c, "C06.d shadow-counters", "SharedSubscriptions")
 	if f := c.fn("mqtt", "(*Subscribers).SelectShared"); f != nil {
 		// inner loop: the rangeiter whose body contains the MapUpdate
 		var mus []*ssa.MapUpdate
@@ -703,46 +863,18 @@ func runC31(c *Ctx) {
 	c.floor("C31.a trie mutation sites", n, 14)
 	// (b) trim
 	if f := c.fn("mqtt", "(*TopicsIndex).trim"); f != nil {
-		all := ""
-		for _, b := range f.Blocks {
-			if t, _, ok := condOf(b); ok {
-				all += t + " ; "
-			}
-		}
-		for _, term := range []struct{ what, sub string }{
-			{"stops at the root (parent == nil)", ".parent == nil"},
-			{"keeps a node that holds a retained message", `.retainPath == ""`},
-			{"keeps a node with children", "(*mqtt.particles).len("},
-			{"keeps a node with client subscriptions", "(*mqtt.Subscriptions).Len("},
-			{"keeps a node with shared subscriptions", "(*mqtt.SharedSubscriptions).Len("},
-			{"keeps a node with inline subscriptions", "(*mqtt.InlineSubscriptions).Len("},
-		} {
-			c.ob("C31.b trim-keeps-live-nodes", "(*mqtt.TopicsIndex).trim "+term.what, c.pos(f.Pos()), strings.Contains(all, term.sub), "removing a node that is not empty drops a live subscription or retained message")
-		}
-		// the sum of the four sizes is compared with 0
-		c.ob("C31.b trim-keeps-live-nodes", "(*mqtt.TopicsIndex).trim removes a node only when all sizes are zero", c.pos(f.Pos()), strings.Contains(all, "== 0"), "")
 		d := c.call1(f, "(*mqtt.particles).delete")
 		// path form: the removal is guarded by every term, and the guard is evaluated again for each ancestor
 		// the walk climbs to (a check hoisted out of the loop protects only the starting node)
 		if d != nil {
-			for _, term := range []struct {
-				what  string
-				match func(string) bool
-				truth bool
-			}{
-				{"has a parent", textHas(".parent == nil"), false},
-				{"holds no retained message", textHas(`.retainPath == ""`), true},
-				{"has no children", textHas("(*mqtt.particles).len(", "== 0"), true},
-				{"has no client subscriptions", textHas("(*mqtt.Subscriptions).Len(", "== 0"), true},
-				{"has no shared subscriptions", textHas("(*mqtt.SharedSubscriptions).Len(", "== 0"), true},
-				{"has no inline subscriptions", textHas("(*mqtt.InlineSubscriptions).Len(", "== 0"), true},
-			} {
+			for _, term := range trimTerms {
 				c.ob("C31.b trim-keeps-live-nodes", "(*mqtt.TopicsIndex).trim: each node removed on the upward walk was itself tested: "+term.what, c.pos(d.Pos()),
-					dominatedByFact(d, term.match, term.truth) && reguarded(d, term.match, term.truth), "an ancestor that still carries a retained message or a subscription would be unlinked with its last child")
+					term.holds(d), "an ancestor that still carries a retained message or a subscription would be unlinked with its last child")
 			}
 		}
 		c.ob("C31.b trim-keeps-live-nodes", "(*mqtt.TopicsIndex).trim deletes the node from its parent by its own key", c.pos(f.Pos()), d != nil && strings.HasSuffix(describe(d.Common().Args[1]), ".key") && strings.Contains(describe(d.Common().Args[0]), ".parent.particles"), "")
 	}
+	shadowCounters(c, "C31.d shadow-counters", "")
 	// (c) existed reports
 	for _, spec := range []struct {
 		fn      string
